@@ -59,7 +59,7 @@ def generate(ctx):
     for _ in range(500 if th else 40):
         ops = [rng.choice(["set_weight", "set_delay", "update", "clamp", "normalize", "forward", "set_weight_param"])
                for _ in range(rng.randint(4, 14))]
-        yield {"part": "lateral_inv", "n": rng.choice([2, 3, 5]), "delay": rng.random() < 0.6, "ops": ops,
+        yield {"part": "lateral_inv", "n": rng.choice([2, 3, 5]), "delay": rng.choice([True, True, False, "zero"]), "ops": ops,
                "seed": rng.randrange(1 << 30)}
 
 
@@ -244,7 +244,8 @@ def _lateral_inv(ctx, desc):
     g = torch.Generator().manual_seed(desc["seed"])
     n = desc["n"]
     try:
-        conn = LinearLateral(n, 1.0, synapse=_syn(), delay=(3.0 if desc["delay"] else None), batch_size=1)
+        # delay: None (no delay parameter), 3.0, or 0.0 - documented as legal: the delay parameter exists, nothing is delayed yet
+        conn = LinearLateral(n, 1.0, synapse=_syn(), delay=({True: 3.0, False: None, "zero": 0.0}[desc["delay"]]), batch_size=1)
         conn.updater = conn.defaultupdater()
     except Exception as e:  # noqa: BLE001
         return ctx.violation(ctx.exc_signature(e, "construct.lateral"), f"{type(e).__name__}: {str(e)[:140]}", desc)
@@ -263,7 +264,7 @@ def _lateral_inv(ctx, desc):
     if not check("construct", -1):
         return
     for oi, op in enumerate(desc["ops"]):
-        ctx.case(f"lateral_inv/{op}/n{n}/delay{int(desc['delay'])}")
+        ctx.case(f"lateral_inv/{op}/n{n}/delay{desc['delay']}")
         try:
             if op == "set_weight":
                 conn.weight = torch.randn(n, n, generator=g) + 2.0
